@@ -1,7 +1,205 @@
-//! Lane `ids` (stub).
-use crate::out::Out;
+//! Lane `ids` (C05): the real ID table positioned at arbitrary counter values / in-use sets
+//! (hooks `verif_set_msgmap`, `verif_next_msgid`) against Model.IdAlloc.nextId, and multi-threaded
+//! bursts from cloned handles with a server-side uniqueness oracle.
+use crate::fmtx::*;
+use crate::out::{guarded, Out};
 use crate::rng::Rng;
+use crate::simnet;
+use ldap3::LdapConnAsync;
+use std::collections::HashSet;
 
-pub fn run(_thorough: bool, _rng: Rng, out: Out) {
-    out.finish("stub lane: nothing generated yet");
+const N: i32 = i32::MAX;
+
+fn alloc_case(out: &mut Out, last: i32, in_use: &[i32], label: &str) {
+    let rt = tokio::runtime::Builder::new_current_thread().build().unwrap();
+    let used = in_use.to_vec();
+    let r = guarded(move || {
+        rt.block_on(async move {
+            let (io, _net) = simnet::pair();
+            let (_conn, mut ldap) = LdapConnAsync::verif_pair(Box::new(io));
+            ldap.verif_set_msgmap(last, &used);
+            let id = ldap.verif_next_msgid();
+            let (l2, u2) = ldap.verif_msgmap();
+            (id, l2, u2)
+        })
+    });
+    let mut sorted = in_use.to_vec();
+    sorted.sort_unstable();
+    let req = format!("id.next {} {} {}", N, last, format!("{:?}", sorted).replace(", ", ","));
+    out.case(&req, !in_use.is_empty());
+    out.stat(label);
+    match r {
+        Ok((id, l2, u2)) => {
+            out.m(&req, &format!("ok {}", id));
+            let set: HashSet<i32> = in_use.iter().copied().collect();
+            // independent oracle: first free ID in cyclic order after `last`, within 1..=N
+            let mut want = last;
+            loop {
+                want = if want == N { 1 } else { want + 1 };
+                if !set.contains(&want) {
+                    break;
+                }
+            }
+            let mut exp_used = sorted.clone();
+            exp_used.push(id);
+            exp_used.sort_unstable();
+            out.r(&format!("ids.first-free-cyclic {}", req), id == want && id >= 1 && !set.contains(&id) && l2 == id && u2 == exp_used, &format!("got {} want {}", id, want));
+        }
+        Err(_) => {
+            out.m(&req, "panic");
+            out.r(&format!("ids.alloc-panics-only-when-full {}", req), false, "panic with free IDs available");
+        }
+    }
+}
+
+pub fn run(thorough: bool, mut rng: Rng, mut out: Out) {
+    // (i) pure allocator at and around the wrap point
+    let lasts = [0i32, 1, 2, 100, N - 2, N - 1, N];
+    let sets: Vec<Vec<i32>> = vec![
+        vec![], vec![1], vec![1, 2, 3], vec![N], vec![N, 1], vec![N - 1, N, 1, 2], vec![2], vec![N - 1], vec![1, 3, 5],
+        (1..=40).collect(), ((N - 20)..=N).collect(), ((N - 20)..=N).chain(1..=20).collect(),
+    ];
+    for &l in &lasts {
+        for s in &sets {
+            if l == 0 && !s.is_empty() {
+                continue; // last = 0 only on a fresh table
+            }
+            alloc_case(&mut out, l, s, "grid");
+        }
+    }
+    let nrand = if thorough { 20000 } else { 1500 };
+    for _ in 0..nrand {
+        let last = match rng.below(4) { 0 => N - rng.below(5) as i32, 1 => rng.range(1, 50) as i32, 2 => N, _ => rng.range(1, N as u64) as i32 };
+        let mut s: Vec<i32> = vec![];
+        // dense run starting right after `last`, crossing the wrap point when near it
+        let run_len = rng.below(30);
+        let mut c = last;
+        for _ in 0..run_len {
+            c = if c == N { 1 } else { c + 1 };
+            if rng.chance(9, 10) {
+                s.push(c);
+            }
+        }
+        for _ in 0..rng.below(5) {
+            s.push(rng.range(1, N as u64) as i32);
+        }
+        s.sort_unstable();
+        s.dedup();
+        alloc_case(&mut out, last, &s, "random");
+    }
+    // (ii) histories: cloned handles on a multi-thread runtime issue bursts while the server answers
+    // in random order; server-side oracle: an arriving ID is within 1..N and differs from every
+    // request it has not answered yet
+    let nhist = if thorough { 300 } else { 25 };
+    for h in 0..nhist {
+        let handles = rng.range(1, 6) as usize;
+        let per = rng.range(2, 12) as usize;
+        let start_last = if rng.chance(1, 2) { N - rng.below(8) as i32 } else { rng.range(0, 50) as i32 };
+        let seed = rng.next();
+        let res = guarded(move || history(handles, per, start_last, seed));
+        let label = format!("ids.history handles={} per={} start_last={}", handles, per, start_last);
+        out.case(&format!("{} #{}", label, h), handles * per >= 2);
+        match res {
+            Ok((ok, detail, n)) => {
+                out.stat_n("history.requests", n as u64);
+                out.r(&label, ok, &detail);
+            }
+            Err(e) => out.r(&label, false, &format!("panic {}", e)),
+        }
+    }
+    out.finish("the real msgmap positioned at last in {0,1,2,100,N-2,N-1,N} x in-use sets (empty, singletons, dense runs across the wrap point, random) and random positions; multi-thread bursts from 1..6 cloned handles with a server-side uniqueness oracle; non-trivial = non-empty in-use set / at least 2 requests; distinct by FNV of the request line");
+}
+
+fn read_msg(buf: &mut Vec<u8>) -> Option<(i64, u64)> {
+    // minimal reader of `30 len 02 idlen id.. optag`
+    if buf.len() < 2 {
+        return None;
+    }
+    let (hl, total) = if buf[1] < 0x80 {
+        (2usize, 2 + buf[1] as usize)
+    } else {
+        let k = (buf[1] & 0x7f) as usize;
+        if buf.len() < 2 + k {
+            return None;
+        }
+        let mut n = 0usize;
+        for b in &buf[2..2 + k] {
+            n = (n << 8) | *b as usize;
+        }
+        (2 + k, 2 + k + n)
+    };
+    if buf.len() < total {
+        return None;
+    }
+    let idlen = buf[hl + 1] as usize;
+    let mut id: i64 = 0;
+    for b in &buf[hl + 2..hl + 2 + idlen] {
+        id = (id << 8) | *b as i64;
+    }
+    let optag = (buf[hl + 2 + idlen] & 0x1f) as u64;
+    buf.drain(..total);
+    Some((id, optag))
+}
+
+fn history(handles: usize, per: usize, start_last: i32, seed: u64) -> (bool, String, usize) {
+    let rt = tokio::runtime::Builder::new_multi_thread().worker_threads(4).enable_time().build().unwrap();
+    rt.block_on(async move {
+        let (io, net) = simnet::pair();
+        let (conn, ldap) = LdapConnAsync::verif_pair(Box::new(io));
+        if start_last > 0 {
+            ldap.verif_set_msgmap(start_last, &[]);
+        }
+        tokio::spawn(async move {
+            let _ = conn.drive().await;
+        });
+        let total = handles * per;
+        let mut joins = vec![];
+        for _ in 0..handles {
+            let mut l = ldap.clone();
+            joins.push(tokio::spawn(async move {
+                for _ in 0..per {
+                    let _ = l.delete("cn=x").await;
+                }
+            }));
+        }
+        // scripted server
+        let mut rng = Rng(seed);
+        let mut inbuf: Vec<u8> = vec![];
+        let mut outstanding: Vec<i64> = vec![];
+        let mut seen = 0usize;
+        let mut ok = true;
+        let mut detail = String::new();
+        let t0 = std::time::Instant::now();
+        while seen < total || !outstanding.is_empty() {
+            if t0.elapsed().as_secs() > 20 {
+                ok = false;
+                detail = format!("watchdog: {} of {} requests seen, {} unanswered", seen, total, outstanding.len());
+                break;
+            }
+            inbuf.extend(net.take_written());
+            while let Some((id, _op)) = read_msg(&mut inbuf) {
+                seen += 1;
+                if id < 1 || id > N as i64 {
+                    ok = false;
+                    detail = format!("id {} out of range", id);
+                }
+                if outstanding.contains(&id) {
+                    ok = false;
+                    detail = format!("id {} reused while still outstanding {:?}", id, outstanding);
+                }
+                outstanding.push(id);
+            }
+            if !outstanding.is_empty() && (rng.chance(1, 2) || seen >= total) {
+                let k = rng.below(outstanding.len() as u64) as usize;
+                let id = outstanding.remove(k);
+                net.send(&crate::scen::result_frame(id, 11, 1));
+            }
+            tokio::time::sleep(std::time::Duration::from_micros(200)).await;
+        }
+        for j in joins {
+            let _ = tokio::time::timeout(std::time::Duration::from_secs(5), j).await;
+        }
+        let _ = hex(&[]);
+        (ok, detail, seen)
+    })
 }
